@@ -26,6 +26,14 @@ SCHEMAS = {
     "mod-scale": ([_x, _p, _q], z3.Implies(z3.And(_p > 0, _q > 0), (_x * _q) % (_p * _q) == _q * (_x % _p))),
     "div-scale": ([_x, _p, _q], z3.Implies(z3.And(_p > 0, _q > 0), (_x * _q) / (_p * _q) == _x / _p)),
     "div-div": ([_x, _p, _q], z3.Implies(z3.And(_p > 0, _q > 0), (_x / _p) / _q == _x / (_p * _q))),
+    # floor division by a positive modulus: shifting the dividend by multiples, thresholds, remainder bounds
+    "div-sub-multiple": ([_x, _p, _q], z3.Implies(_p > 0, (_x - _q * _p) / _p == _x / _p - _q)),
+    "div-threshold": ([_x, _p, _q], z3.Implies(_p > 0, (_x / _p >= _q) == (_x >= _q * _p))),
+    "div-bounds": ([_x, _p], z3.Implies(_p > 0, z3.And(_p * (_x / _p) <= _x, _x < _p * (_x / _p) + _p))),
+    "div-multiple": ([_x, _p], z3.Implies(_p > 0, (_x * _p) / _p == _x)),
+    # the same with the product given as a separate term r == p*q (e.g. 2**(a+b) for p = 2**a, q = 2**b)
+    "mod-scale3": ([_x, _p, _q, _y], z3.Implies(z3.And(_p > 0, _q > 0, _y == _p * _q), (_x * _q) - _y * ((_x * _q) / _y) == _q * (_x - _p * (_x / _p)))),
+    "div-scale3": ([_x, _p, _q, _y], z3.Implies(z3.And(_p > 0, _q > 0, _y == _p * _q), (_x * _q) / _y == _x / _p)),
     # product of two bounded non-negative integers
     "product-bound": ([_x, _p, _y, _q], z3.Implies(z3.And(0 <= _x, _x <= _p, 0 <= _y, _y <= _q), z3.And(0 <= _x * _y, _x * _y <= _p * _q))),
     # product of two integers bounded in absolute value
